@@ -38,6 +38,7 @@ Fixpoint mclose {A} (fs : list (massoc A * bytes)) (inner : massoc A) : massoc A
   end.
 Definition mroot {A} (s : mst A) : massoc A := mclose (mframes s) (mcur s).
 
+Definition ocons {A} (v : option A) (l : list A) : list A := match v with Some x => x :: l | None => l end.
 Definition mstr (s : mst leaf) (k v : bytes) : mst leaf := madd s k (ML (LStr v)).
 Definition merr (k : bytes) (e : option bytes) (s : mst leaf) : mst leaf :=
   match e with None => s | Some msg => mstr s (k ++ s_Error) msg end.
@@ -122,25 +123,26 @@ with mm_arr (a : arrm) {struct a} : mtree leaf * option bytes :=      (* a fresh
            | e :: r =>
                let '(v, err) := mm_elem e in
                match err with
-               | Some m => if stop then ([v], Some m) else let '(vs, e2) := go r in (v :: vs, e2)
-               | None => let '(vs, e2) := go r in (v :: vs, e2)
+               | Some m => if stop then (ocons v [], Some m) else let '(vs, e2) := go r in (ocons v vs, e2)
+               | None => let '(vs, e2) := go r in (ocons v vs, e2)
                end
            end) elems in
       (MA vs, match early with Some m => Some m | None => ret end)
   end
-with mm_elem (e : elem) {struct e} : mtree leaf * option bytes :=
+with mm_elem (e : elem) {struct e} : option (mtree leaf) * option bytes :=
   match e with
-  | EBool v => (ML (LBool v), None)
-  | EInt z => (ML (LInt z), None)
-  | EUint z => (ML (LUint z), None)
-  | EFloat v => (ML (LFloat v), None)
-  | EStr v | EBStr v => (ML (LStr v), None)
-  | ECplx re im g => (ML (LCplx re im g), None)
-  | EDur d => (ML (LDur d), None)
-  | ETime t => (ML (LTime t), None)
-  | ERefl r => (ML (LRefl r), None)
-  | EObj m => mm_obj m
-  | EArr a => mm_arr a
+  | EBool v => (Some (ML (LBool v)), None)
+  | EInt z => (Some (ML (LInt z)), None)
+  | EUint z => (Some (ML (LUint z)), None)
+  | EFloat v => (Some (ML (LFloat v)), None)
+  | EStr v | EBStr v => (Some (ML (LStr v)), None)
+  | ECplx re im g => (Some (ML (LCplx re im g)), None)
+  | EDur d => (Some (ML (LDur d)), None)
+  | ETime t => (Some (ML (LTime t)), None)
+  | ERefl r => (Some (ML (LRefl r)), None)
+  | EObj m => let '(v, err) := mm_obj m in (Some v, err)
+  | EArr a => let '(v, err) := mm_arr a in (Some v, err)
+  | EFail msg => (None, Some msg)
   end.
 
 Definition mm_flds (fs : list fld) (s : mst leaf) : mst leaf := fold_left (fun s f => mm_fld f s) fs s.
